@@ -518,17 +518,15 @@ Definition stream_decode (lim : limits) (d : dstate) : sres * dstate :=
       end
   end.
 
-(* repeated Decode until the first result that is not an assertion; [accepted] tells, for each assertion the model
-   hands to assemble, whether the implementation's assemble accepted it (that part is not modelled) *)
-Fixpoint stream_all (fuel : nat) (lim : limits) (d : dstate) (accepted : list bool) : list sres :=
-  match fuel with
-  | O => [SFuel]
-  | S f =>
+(* repeated Decode, one call per entry of [accepted], stopping at the first result that is not an assertion;
+   [accepted] tells, for each assertion the model hands to assemble, whether the implementation's assemble accepted
+   it (that part is not modelled) *)
+Fixpoint stream_all (lim : limits) (d : dstate) (accepted : list bool) : list sres :=
+  match accepted with
+  | [] => []
+  | a :: acc' =>
       match stream_decode lim d with
-      | (SOk p, d1) => match accepted with
-                       | true :: acc' => SOk p :: stream_all f lim d1 acc'
-                       | _ => [SErr]
-                       end
+      | (SOk p, d1) => if a then SOk p :: stream_all lim d1 acc' else [SErr]
       | (r, _) => [r]
       end
   end.
@@ -598,10 +596,10 @@ Definition mismatch (c : case) : bool :=
   | CParse head r => negb (pres_eqb (pres_of (parse_headers head)) r)
   | CCodec _ _ _ enc dec sdec _ =>
       negb (dec_agree (decode_parts enc) dec)
-      || negb (stream_agree (stream_all 2 default_limits (mkD enc false) (accepted_of [sdec])) [sdec])
+      || negb (stream_agree (stream_all default_limits (mkD enc false) (accepted_of [sdec])) [sdec])
   | CDecode enc dec _ => negb (dec_agree (decode_parts enc) dec)
   | CStream lim stream results _ =>
-      negb (stream_agree (stream_all (S (length results)) lim (mkD stream false) (accepted_of results)) results)
+      negb (stream_agree (stream_all lim (mkD stream false) (accepted_of results)) results)
   end.
 
 (* The property's conclusion on the observed behaviour only (no model function of the codec is used):
